@@ -1,4 +1,5 @@
 CONSTANTS
+  ReadFaultGivesUp = TRUE
   MaxNodes = 5
   MaxShards = 8
 SPECIFICATION ASpec
